@@ -3,6 +3,7 @@ CONSTANTS
   Fix = {"tail", "suffix", "epoch"}
   Taints = {}
   GenMode = FALSE
+  MaxSkip = 0
   MaxOps = 4
   MaxPost = 1
   MaxRecs = 6
